@@ -586,7 +586,10 @@ Definition Jl' (St : rstore) (ca : hdr) (P : ranges) (st : sstate) (tr : bool) (
   | LIdle => synced St ca /\ all_gt hc A /\ (ss_err st = None -> ss_to st <= hc) /\ (A <> [] -> tr = true \/ ss_err st <> None)
              /\ (ss_err st <> None -> A <> [])
   | LSync => synced St ca /\ all_gt hc A /\ (ss_err st = None -> ss_to st <= hc) /\ (ss_err st <> None -> A <> [])
-  | LSync1 p => synced St ca /\ all_gt hc A /\ In p A /\ trig_inv P tr (h_height p)
+  | LSync1 ph => synced St ca /\ all_gt hc A /\ (ss_err st = None -> ss_to st <= hc) /\ (ss_err st <> None -> A <> []) /\
+                 match ph with Some p => In p A /\ trig_inv P tr (h_height p) | None => A <> [] -> tr = true end
+  | LSync2 p => synced St ca /\ all_gt hc A /\ (ss_err st = None -> ss_to st <= hc) /\ (ss_err st <> None -> A <> []) /\
+                ((In p A /\ trig_inv P tr (h_height p)) \/ (h_height p <= hc /\ (A <> [] -> tr = true)))
   | LFirst from to => synced St ca /\ all_gt hc A /\ insync P st tr to /\ fromto P ca from to
   | LGet from to => synced St ca /\ all_gt hc A /\ insync P st tr to /\ fromto P ca from to /\ first_ne P
   | LReq (KGap cached oto) from to => synced St ca /\ all_gt hc A /\ from = ca /\ kgap P st tr ca cached oto to
@@ -713,12 +716,17 @@ Proof.
   intros Hx.
   assert (Hag : all_gt (h_height ca) (ranges_all P) -> all_gt (h_height ca) (ranges_all P')).
   { intros H. unfold P'. rewrite pall_add by assumption. apply all_gt_app; [exact H|apply all_gt_one; lia]. }
-  destruct pc as [| |p|from to|from to|k from to|k hs|k hs nh|k hs|oto lst|]; cbn [Jl'].
+  destruct pc as [| |ph|p|from to|from to|k from to|k hs|k hs nh|k hs|oto lst|]; cbn [Jl'].
   - intros (A & B & C & D & K). split; [exact A|]. split; [auto|]. split; [exact C|]. split; [intros _; left; reflexivity|].
     intros _. unfold P'. rewrite pall_add by assumption. destruct (ranges_all P); discriminate.
   - intros (A & B & C & K). split; [exact A|]. split; [auto|]. split; [exact C|].
     intros _. unfold P'. rewrite pall_add by assumption. destruct (ranges_all P); discriminate.
-  - intros (A & B & C & D). split; [exact A|]. split; [auto|]. split; [apply in_pall_add; exact C|]. intros _. reflexivity.
+  - intros (A & B & C & K & D). split; [exact A|]. split; [auto|]. split; [exact C|].
+    split; [intros _; unfold P'; rewrite pall_add by assumption; destruct (ranges_all P); discriminate|].
+    destruct ph as [p|]; [destruct D as [D1 D2]; split; [apply in_pall_add; exact D1|intros _; reflexivity]|intros _; reflexivity].
+  - intros (A & B & C & K & D). split; [exact A|]. split; [auto|]. split; [exact C|].
+    split; [intros _; unfold P'; rewrite pall_add by assumption; destruct (ranges_all P); discriminate|].
+    destruct D as [[D1 D2]|[D1 D2]]; [left; split; [apply in_pall_add; exact D1|intros _; reflexivity]|right; split; [exact D1|intros _; reflexivity]].
   - intros (A & B & C & D). split; [exact A|]. split; [auto|]. split; [eapply insync_add; exact C|apply fromto_add; exact D].
   - intros (A & B & C & D & E). split; [exact A|]. split; [auto|]. split; [eapply insync_add; exact C|]. split; [apply fromto_add; exact D|apply first_ne_add; exact E].
   - destruct k as [cached oto|].
@@ -786,11 +794,17 @@ Qed.
 (** localHead is the maximum of what is pending, or the cache *)
 Lemma local_head_spec c :
   rinv (c_pend c) ->
-  (ranges_all (c_pend c) = [] /\ local_head c = c_cache c) \/
-  (In (local_head c) (ranges_all (c_pend c)) /\ forall y, In y (ranges_all (c_pend c)) -> h_height y <= h_height (local_head c)).
+  h_height (c_cache c) <= h_height (local_head c) /\
+  (forall y, In y (ranges_all (c_pend c)) -> h_height y <= h_height (local_head c)) /\
+  (local_head c = c_cache c \/ (In (local_head c) (ranges_all (c_pend c)) /\ h_height (c_cache c) < h_height (local_head c))) /\
+  (ranges_all (c_pend c) = [] -> local_head c = c_cache c).
 Proof.
-  intros Hr. unfold local_head. pose proof (rinv_head _ Hr) as H.
-  destruct (ranges_head (c_pend c)); [right; exact H|left; split; [exact H|reflexivity]].
+  intros Hr. unfold local_head, pick_head. pose proof (rinv_head _ Hr) as H.
+  destruct (ranges_head (c_pend c)) as [p|].
+  - destruct H as [Hin Hmax]. destruct (N.ltb_spec (h_height (c_cache c)) (h_height p)) as [Hlt|Hge].
+    + split; [lia|]. split; [exact Hmax|]. split; [right; split; assumption|]. intros E. rewrite E in Hin. destruct Hin.
+    + split; [lia|]. split; [intros y Hy; specialize (Hmax y Hy); lia|]. split; [left; reflexivity|reflexivity].
+  - split; [lia|]. split; [rewrite H; intros y []|]. split; [left; reflexivity|reflexivity].
 Qed.
 
 Lemma Jl_frame_loop St ca P st tr pc : Jl' St ca P st tr pc -> Jl' St ca P st tr pc.
@@ -879,7 +893,7 @@ Lemma Jl_all_gt St ca P st tr pc :
   | _ => all_gt (h_height ca) (ranges_all P)
   end.
 Proof.
-  destruct pc as [| |p|from to|from to|k from to|k hs|k hs nh|k hs|oto lst|]; cbn [Jl'];
+  destruct pc as [| |ph|p|from to|from to|k from to|k hs|k hs nh|k hs|oto lst|]; cbn [Jl'];
     try destruct k as [[cached oto|] to|oto]; try destruct k as [cached oto|]; try tauto; intros []; tauto.
 Qed.
 
@@ -933,12 +947,17 @@ Proof.
   assert (Hnf : forall h oto rest t, all_gt (h_height ca) (ranges_all P) -> fsplit P h oto rest t -> False).
   { intros h oto rest t Hag Hf. pose proof (fsplit_all _ _ _ _ _ Hf) as E. destruct Hf as (r & _ & _ & Hne & _).
     rewrite (Hemp Hag) in E. destruct h; [contradiction|discriminate]. }
-  destruct pc as [| |p|from to|from to|k from to|k hs|k hs nh|k hs|oto lst|]; cbn [Jl'] in *.
+  destruct pc as [| |ph|p|from to|from to|k from to|k hs|k hs nh|k hs|oto lst|]; cbn [Jl'] in *.
   - destruct HJ as (A & B & C & D & K). destruct (synced_next St ca x A Hx Hh) as [A' _].
     split; [exact A'|]. rewrite (Hemp B) in *. split; [intros y []|]. split; [intros E; specialize (C E); lia|]. split; [intros Hc; contradiction|exact K].
   - destruct HJ as (A & B & C & K). destruct (synced_next St ca x A Hx Hh) as [A' _]. split; [exact A'|]. rewrite (Hemp B) in *.
     split; [intros y []|]. split; [intros E; specialize (C E); lia|exact K].
-  - destruct HJ as (A & B & C & D). rewrite (Hemp B) in C. destruct C.
+  - destruct HJ as (A & B & C & K & D). destruct (synced_next St ca x A Hx Hh) as [A' _].
+    split; [exact A'|]. pose proof (Hemp B) as EA. rewrite EA in *. split; [intros y []|]. split; [intros E; specialize (C E); lia|]. split; [exact K|].
+    destruct ph as [p|]; [destruct D as [[] _]|exact D].
+  - destruct HJ as (A & B & C & K & D). destruct (synced_next St ca x A Hx Hh) as [A' _].
+    split; [exact A'|]. pose proof (Hemp B) as EA. rewrite EA in *. split; [intros y []|]. split; [intros E; specialize (C E); lia|]. split; [exact K|].
+    destruct D as [[[] _]|[D1 D2]]. right. split; [lia|exact D2].
   - destruct HJ as (A & B & C & D). destruct (synced_next St ca x A Hx Hh) as [A' _].
     split; [exact A'|]. split; [rewrite (Hemp B); intros y []|]. split; [exact C|].
     destruct D as [(_ & _ & D)|[D1 D2]]; [destruct (Hnt _ B D)|]. right. split; [exact D1|lia].
@@ -986,7 +1005,7 @@ Lemma Jl_dup St ca P st tr pc x :
   Jl' St ca P st tr pc -> Jl' (rs_append [x] St) ca P st tr pc.
 Proof.
   intros Hca Hri [Hxc Hxk] Hh Hgt Hpc HJ.
-  destruct pc as [| |p|from to|from to|k from to|k hs|k hs nh|k hs|oto lst|]; try destruct Hpc.
+  destruct pc as [| |ph|p|from to|from to|k from to|k hs|k hs nh|k hs|oto lst|]; try destruct Hpc.
   - destruct k as [[cached oto|] to|oto]; try destruct Hpc. cbn [Jl'] in *.
     destruct HJ as (A & B & (a & l & Ea & Eh)).
     destruct (stale_low P st tr ca hs oto x Hri A Hgt ltac:(lia)) as (_ & (rest & t & Hf & He) & Hl & Ho).
@@ -1011,19 +1030,19 @@ Proof.
   pose proof (local_head_spec c Hri) as Hlh.
   (* what is pending is either nothing (local head = cache) or bounded by the local head *)
   assert (Hgt : forall y, In y (ranges_all (c_pend c)) -> h_height y < h_height x).
-  { intros y Hy. destruct Hlh as [[E _]|[_ Hm]]; [rewrite E in Hy; destruct Hy|]. specialize (Hm y Hy). lia. }
+  { intros y Hy. destruct Hlh as (_ & Hm & _). specialize (Hm y Hy). lia. }
   (* in every program point but the stale window: pending is above the cache *)
   assert (Hnostale : all_gt (h_height (c_cache c)) (ranges_all (c_pend c)) -> h_height (c_cache c) < h_height x /\
             (h_height x = h_height (c_cache c) + 1 -> ranges_all (c_pend c) = [])).
-  { intros Hag. destruct Hlh as [[E El]|[Hin Hm]].
-    - rewrite El in Hlt. split; [exact Hlt|intros _; exact E].
-    - specialize (Hag _ Hin). split; [lia|intros; lia]. }
+  { intros Hag. destruct Hlh as (Hc & Hm & _ & _). split; [lia|]. intros Ex.
+    destruct (ranges_all (c_pend c)) as [|y l] eqn:Ey; [reflexivity|exfalso].
+    specialize (Hag y (or_introl eq_refl)). specialize (Hm y (or_introl eq_refl)). lia. }
   assert (Hdup : h_height x <= h_height (c_cache c) -> J (c <| c_store ::= rs_append [x] |>)).
   { (* x at or below the cache: only in the stale window; a duplicate is written *)
     intros Hh.
     assert (Hpc : match c_loop c with LApp2 (AKCached _) _ | LRem _ _ => True | _ => False end).
     { pose proof (Jl_all_gt _ _ _ _ _ _ Hl) as Hag.
-      destruct (c_loop c) as [| |p|from to|from to|k from to|k hs|k hs nh|k hs|oto lst|]; try exact I;
+      destruct (c_loop c) as [| |ph|p|from to|from to|k from to|k hs|k hs nh|k hs|oto lst|]; try exact I;
         try (destruct (Hnostale Hag); lia).
       destruct k as [k' to|oto]; [|exact I]. destruct (Hnostale Hag); lia. }
     constructor; cbn.
@@ -1331,19 +1350,37 @@ Definition honest_ans (c : cfg) (a : ganswer) : Prop :=
 Lemma J_lstep c a : J c -> honest_ans c a -> J (l_step a c).
 Proof.
   intros [Hca Hri Hpg Hth Hmu Hl] Ha. pose proof Hca as [Hcc Hck].
-  unfold l_step. destruct (c_loop c) as [| |p|from to|from to|k from to|k hs|k hs nh|k hs|oto lst|] eqn:Elp.
+  unfold l_step. destruct (c_loop c) as [| |ph|p|from to|from to|k from to|k hs|k hs nh|k hs|oto lst|] eqn:Elp.
   - (* LIdle *) destruct (c_trig c) eqn:Etr.
     + constructor; cbn; auto. destruct Hl as (A & B & C & D & K). split; [exact A|]. split; [exact B|]. split; [exact C|exact K].
     + constructor; auto. rewrite Elp, Etr. exact Hl.
   - (* LSync *) destruct Hl as (A & B & C & K). pose proof (rinv_head _ Hri) as Hh.
+    constructor; cbn; auto. split; [exact A|]. split; [exact B|]. split; [exact C|]. split; [exact K|].
     destruct (ranges_head (c_pend c)) as [p|] eqn:Ep.
-    + constructor; cbn; auto. destruct Hh as [Hin Hmax]. split; [exact A|]. split; [exact B|]. split; [exact Hin|].
-      intros (y & Hy & Hlt). specialize (Hmax y Hy). lia.
-    + constructor; cbn; auto. split; [exact A|]. split; [exact B|]. split; [exact C|]. split; [intros Hne; contradiction|exact K].
-  - (* LSync1 *) destruct Hl as (A & B & C & D). pose proof (B p C) as Hp.
-    destruct (N.leb_spec (h_height p) (h_height (c_cache c))); [lia|].
-    constructor; cbn; auto. split; [exact A|]. split; [exact B|]. split; [split; [reflexivity|exact D]|].
-    left. split; [reflexivity|]. split; [exact Hp|]. exists p. split; [exact C|reflexivity].
+    + destruct Hh as [Hin Hmax]. split; [exact Hin|]. intros (y & Hy & Hlt). specialize (Hmax y Hy). lia.
+    + intros Hne. contradiction.
+  - (* LSync1 *) destruct Hl as (A & B & C & K & D).
+    constructor; cbn; auto. split; [exact A|]. split; [exact B|]. split; [exact C|]. split; [exact K|].
+    unfold pick_head. destruct ph as [p|].
+    + destruct D as [D1 D2]. pose proof (B p D1) as Hp. destruct (N.ltb_spec (h_height (c_cache c)) (h_height p)); [|lia].
+      left. split; assumption.
+    + right. split; [lia|exact D].
+  - (* LSync2 *) destruct Hl as (A & B & C & K & D).
+    destruct (N.leb_spec (h_height p) (h_height (c_cache c))) as [Hle|Hgt].
+    + destruct D as [[D1 _]|[_ D2]]; [specialize (B p D1); lia|].
+      destruct (remove_upto_spec (h_height (c_cache c)) _ Hri) as (rs' & -> & Hri' & Hm).
+      assert (Hsame : forall y, In y (ranges_all rs') <-> In y (ranges_all (c_pend c))).
+      { intros y. rewrite Hm. split; [intros [H _]; exact H|intros H; split; [exact H|apply B; exact H]]. }
+      assert (Hne : ranges_all rs' <> [] <-> ranges_all (c_pend c) <> []).
+      { split; intros H E.
+        - destruct (ranges_all rs') as [|y l] eqn:Ey; [contradiction|]. assert (Hy : In y (y :: l)) by (left; reflexivity). apply Hsame in Hy. rewrite E in Hy. destruct Hy.
+        - destruct (ranges_all (c_pend c)) as [|y l] eqn:Ey; [contradiction|]. assert (Hy : In y (y :: l)) by (left; reflexivity). apply Hsame in Hy. rewrite E in Hy. destruct Hy. }
+      constructor; cbn; [exact Hca|exact Hri'|intros y Hy; apply Hpg; apply Hsame; exact Hy|exact Hth|exact Hmu|].
+      split; [exact A|]. split; [intros y Hy; apply B; apply Hsame; exact Hy|]. split; [exact C|].
+      split; [intros H; left; apply D2; apply Hne; exact H|intros H; apply Hne; apply K; exact H].
+    + destruct D as [[D1 D2]|[D1 _]]; [|lia].
+      constructor; cbn; auto. split; [exact A|]. split; [exact B|]. split; [split; [reflexivity|exact D2]|].
+      left. split; [reflexivity|]. split; [exact Hgt|]. exists p. split; [exact D1|reflexivity].
   - (* LFirst *) destruct Hl as (A & B & C & D).
     destruct (ranges_first_spec _ Hri) as (Hri' & Eall & _ & Hfirst).
     assert (HC : insync (ranges_first (c_pend c)) (c_state c) (c_trig c) to).
@@ -1404,7 +1441,7 @@ Qed.
 (** *** progress of the sync loop *)
 Definition wpc (pc : lpc) : nat :=
   match pc with
-  | LIdle => 0 | LSync => 11 | LSync1 _ => 10 | LFirst _ _ => 9 | LGet _ _ => 8 | LReq _ _ _ => 7
+  | LIdle => 0 | LSync => 12 | LSync1 _ => 11 | LSync2 _ => 10 | LFirst _ _ => 9 | LGet _ _ => 8 | LReq _ _ _ => 7
   | LApp0 _ _ => 6 | LApp1 _ _ _ => 5 | LApp2 _ _ => 4 | LRem _ _ => 3 | LPanic => 0
   end.
 
@@ -1450,17 +1487,21 @@ Proof.
   pose proof (J_lstep c a HJ (good_honest c a Hga)) as HJ'.
   destruct HJ as [Hca Hri Hpg Hth Hmu Hl]. pose proof Hca as [Hcc Hck].
   unfold quiescent, bounded, pot, reqpot in *. revert HJ'.
-  unfold l_step. destruct (c_loop c) as [| |p|from to|from to|k from to|k hs|k hs nh|k hs|oto lst|] eqn:Elp.
+  unfold l_step. destruct (c_loop c) as [| |ph|p|from to|from to|k from to|k hs|k hs nh|k hs|oto lst|] eqn:Elp.
   - (* LIdle *) destruct (c_trig c) eqn:Etr; [|exfalso; apply Hnq; split; reflexivity].
     intros _. cbn. rewrite ?Etr. split; [lia|]. split; [split; assumption|]. split; [intros [E _]; discriminate E|cbn; lia].
-  - (* LSync *) destruct Hl as (A & B & C & K). pose proof (rinv_head _ Hri) as Hh.
-    destruct (ranges_head (c_pend c)) as [p|] eqn:Ep; intros _; cbn.
-    + split; [lia|]. split; [split; assumption|]. split; [intros [E _]; discriminate E|cbn; lia].
-    + split; [lia|]. split; [split; assumption|]. split; [|cbn; lia]. intros _.
-      destruct (ss_err (c_state c)) as [e|] eqn:Ee; [|reflexivity]. exfalso. apply K; [discriminate|exact Hh].
-  - (* LSync1 *) destruct Hl as (A & B & C & D). pose proof (B p C) as Hp.
-    destruct (N.leb_spec (h_height p) (h_height (c_cache c))); [lia|].
-    intros _. cbn. split; [lia|]. split; [split; assumption|]. split; [intros [E _]; discriminate E|cbn; lia].
+  - (* LSync *) intros _. cbn. split; [lia|]. split; [split; assumption|]. split; [intros [E _]; discriminate E|cbn; lia].
+  - (* LSync1 *) intros _. cbn. split; [lia|]. split; [split; assumption|]. split; [intros [E _]; discriminate E|cbn; lia].
+  - (* LSync2 *) destruct Hl as (A & B & C & K & D).
+    destruct (N.leb_spec (h_height p) (h_height (c_cache c))) as [Hle|Hgt].
+    + destruct D as [[D1 _]|[_ D2]]; [specialize (B p D1); lia|].
+      destruct (remove_upto_spec (h_height (c_cache c)) _ Hri) as (rs' & Eu & _ & Hm). rewrite Eu.
+      pose proof (remove_upto_len _ _ _ Eu) as Hlen.
+      intros _. cbn. split; [lia|]. split; [split; [assumption|intros y Hy; apply Hb2; apply Hm in Hy; apply Hy]|].
+      split; [|cbn; lia]. intros [_ Etf].
+      destruct (ss_err (c_state c)) as [e|] eqn:Ee; [exfalso|reflexivity].
+      assert (Hne : ranges_all (c_pend c) <> []) by (apply K; discriminate). specialize (D2 Hne). congruence.
+    + intros _. cbn. split; [lia|]. split; [split; assumption|]. split; [intros [E _]; discriminate E|cbn; lia].
   - (* LFirst *)
     destruct (ranges_first_spec _ Hri) as (_ & Eall & _ & _).
     destruct (ranges_first (c_pend c)) as [|r t] eqn:Ef; intros _; cbn.
@@ -1525,10 +1566,14 @@ Definition lower (H : N) (c : cfg) : Prop :=
 Lemma lstep_lower H c a : J c -> lower H c -> lower H (l_step a c).
 Proof.
   intros [Hca Hri Hpg Hth Hmu Hl] L. unfold lower in *.
-  unfold l_step. destruct (c_loop c) as [| |p|from to|from to|k from to|k hs|k hs nh|k hs|oto lst|] eqn:Elp.
+  unfold l_step. destruct (c_loop c) as [| |ph|p|from to|from to|k from to|k hs|k hs nh|k hs|oto lst|] eqn:Elp.
   - destruct (c_trig c); exact L.
-  - destruct (ranges_head (c_pend c)); exact L.
-  - destruct Hl as (A & B & C & D). pose proof (B p C) as Hp. destruct (N.leb_spec (h_height p) (h_height (c_cache c))); [lia|]. exact L.
+  - exact L.
+  - exact L.
+  - destruct Hl as (A & B & C & K & D).
+    destruct (N.leb_spec (h_height p) (h_height (c_cache c))); [|exact L].
+    destruct (remove_upto_spec (h_height (c_cache c)) _ Hri) as (rs' & -> & _ & Hm). cbn.
+    destruct L as [L|(y & Hy & Hle)]; [left; exact L|right]. exists y. split; [apply Hm; split; [exact Hy|apply B; exact Hy]|exact Hle].
   - destruct (ranges_first_spec _ Hri) as (_ & Eall & _ & _).
     assert (L' : H <= h_height (c_cache c) \/ exists y, In y (ranges_all (ranges_first (c_pend c))) /\ H <= h_height y)
       by (rewrite Eall; exact L).
@@ -1613,11 +1658,10 @@ Definition newest_height (c : cfg) : N := N.max (h_height (local_head c)) (h_hei
 Lemma newest_spec c : J c -> bounded (newest_height c) c /\ lower (newest_height c) c.
 Proof.
   intros [Hca Hri Hpg Hth Hmu Hl]. unfold newest_height, bounded, lower.
-  destruct (local_head_spec c Hri) as [[E El]|[Hin Hmax]].
-  - rewrite El, E. split; [split; [lia|intros y []]|left; lia].
-  - split; [split; [lia|intros y Hy; specialize (Hmax y Hy); lia]|].
-    destruct (N.max_spec (h_height (local_head c)) (h_height (c_cache c))) as [[_ ->]|[_ ->]]; [left; lia|].
-    right. exists (local_head c). split; [exact Hin|lia].
+  destruct (local_head_spec c Hri) as (Hc & Hmax & Hd & _).
+  split; [split; [lia|intros y Hy; specialize (Hmax y Hy); lia]|].
+  destruct Hd as [E|[Hin Hlt]]; [left; rewrite E; lia|].
+  right. exists (local_head c). split; [exact Hin|lia].
 Qed.
 
 Definition reached (H : N) (c' : cfg) : Prop :=
@@ -1672,6 +1716,10 @@ Fixpoint asc_from (b : N) (l : list hdr) : Prop :=
 Lemma asc_from_weaken b b' l : b' <= b -> asc_from b l -> asc_from b' l.
 Proof. destruct l as [|x r]; [auto|]. cbn. intros Hle [H1 H2]. split; [lia|exact H2]. Qed.
 
+Lemma pick_height ph sh :
+  h_height (pick_head ph sh) = match ph with Some p => N.max (h_height sh) (h_height p) | None => h_height sh end.
+Proof. unfold pick_head. destruct ph as [p|]; [|reflexivity]. destruct (N.ltb_spec (h_height sh) (h_height p)); lia. Qed.
+
 Lemma local_head_slh x c :
   J c -> good x -> h_height (local_head c) < h_height x -> h_height (local_head (slh x c)) <= h_height x.
 Proof.
@@ -1680,10 +1728,10 @@ Proof.
   - unfold local_head in *. cbn. lia.
   - lia.
   - unfold local_head in *. cbn. lia.
-  - unfold local_head in *. cbn. destruct (ranges_head (c_pend c)); lia.
+  - unfold local_head in *. cbn. rewrite pick_height in *. destruct (ranges_head (c_pend c)); lia.
   - assert (Hgt : forall y, In y (ranges_all (c_pend c)) -> h_height y < h_height x).
-    { intros y Hy. destruct (local_head_spec c Hri) as [[E0 _]|[_ Hm]]; [rewrite E0 in Hy; destruct Hy|]. specialize (Hm y Hy). lia. }
-    unfold local_head. cbn.
+    { intros y Hy. destruct (local_head_spec c Hri) as (_ & Hm & _). specialize (Hm y Hy). lia. }
+    unfold local_head. cbn. rewrite pick_height.
     pose proof (rinv_head _ (rinv_add x _ Hri Hxk)) as Hhd.
     destruct (ranges_head (ranges_add x (c_pend c))) as [m|]; [|lia].
     destruct Hhd as [Hin _]. rewrite pall_add in Hin by assumption. apply in_app_or in Hin.
@@ -1813,8 +1861,9 @@ Proof.
   destruct (slh_cases x c Hck) as [[Hh E]|[[Hh [E|E]]|[[Hh E]|[Hh E]]]]; rewrite E in *; clear E; cbn in E1, E2, E3;
     try discriminate E2.
   all: rewrite E1 in Hl; cbn [Jl'] in Hl; destruct Hl as (A & B & C & D & K);
-    specialize (K E3); destruct (local_head_spec c Hri) as [[E0 _]|[Hin _]]; [contradiction|];
-    specialize (B _ Hin); lia.
+    specialize (K E3); destruct (local_head_spec c Hri) as (_ & Hm & _);
+    (destruct (ranges_all (c_pend c)) as [|y0 l0] eqn:Ey; [contradiction|]);
+    specialize (B y0 (or_introl eq_refl)); specialize (Hm y0 (or_introl eq_refl)); lia.
 Qed.
 
 Lemma slh_newest x c :
@@ -1823,8 +1872,8 @@ Proof.
   intros HJ [Hxc Hxk] Hlt. pose proof HJ as [[Hcc Hck] Hri Hpg Hth Hmu Hl]. unfold newest_height.
   destruct (slh_cases x c Hck) as [[Hh E]|[[Hh [E|E]]|[[Hh E]|[Hh E]]]]; rewrite E; clear E; cbn; try lia.
   assert (Hgt : forall y, In y (ranges_all (c_pend c)) -> h_height y < h_height x).
-  { intros y Hy. destruct (local_head_spec c Hri) as [[E0 _]|[_ Hm]]; [rewrite E0 in Hy; destruct Hy|]. specialize (Hm y Hy). lia. }
-  unfold local_head. cbn.
+  { intros y Hy. destruct (local_head_spec c Hri) as (_ & Hm & _). specialize (Hm y Hy). lia. }
+  unfold local_head. cbn. rewrite pick_height.
   pose proof (rinv_head _ (rinv_add x _ Hri Hxk)) as Hhd.
   destruct (ranges_head (ranges_add x (c_pend c))) as [m|].
   - destruct Hhd as [_ Hmax]. assert (Hx : In x (ranges_all (ranges_add x (c_pend c)))) by (rewrite pall_add by assumption; apply in_or_app; right; left; reflexivity).
@@ -1970,9 +2019,10 @@ Lemma no_panic_step drift tv c e : c_loop c <> LPanic -> c_loop (step drift tv c
 Proof.
   intros Hn. destruct e as [h now b|a|a|i]; cbn [step]; try exact Hn.
   - unfold l_step, l_finish, after_req, after_app.
-    destruct (c_loop c) as [| |p|from to|from to|k from to|k hs|k hs nh|k hs|oto lst|] eqn:Elp; try contradiction.
+    destruct (c_loop c) as [| |ph|p|from to|from to|k from to|k hs|k hs nh|k hs|oto lst|] eqn:Elp; try contradiction.
     + destruct (c_trig c); cbn; [discriminate|rewrite Elp; discriminate].
-    + destruct (ranges_head (c_pend c)); cbn; discriminate.
+    + cbn; discriminate.
+    + cbn; discriminate.
     + destruct (_ <=? _); [|cbn; discriminate].
       destruct (remove_upto_total (h_height (c_cache c)) (c_pend c)) as (rs & ->). cbn. discriminate.
     + destruct (ranges_first (c_pend c)); cbn; discriminate.
